@@ -232,9 +232,11 @@ def _make_empty_cog(
         )
 
         metas.append(meta)
-        im_shape = im_shape.shrink2()
-        if gbox is not None:
-            gbox = gbox.zoom_to(im_shape)
+        if idx < nlevels:
+            # prepare next level, after the last one shape can have a zero side
+            im_shape = im_shape.shrink2()
+            if gbox is not None:
+                gbox = gbox.zoom_to(im_shape)
 
     meta = metas[0]
     meta.overviews = tuple(metas[1:])
@@ -361,6 +363,7 @@ def _compress_tiles(
     """
     # pylint: disable=import-outside-toplevel
     have.check_or_error("dask")
+    from dask.array.core import normalize_chunks
     from dask.bag import Bag
     from dask.base import tokenize
     from dask.core import quote
@@ -382,12 +385,13 @@ def _compress_tiles(
             # else have 1 chunk per "sample"
             _chunks = (1, *meta.tile.yx)
 
-        if data.chunksize != _chunks:
+        # not ``data.chunksize``, that is the largest chunk per axis only
+        if data.chunks != normalize_chunks(_chunks, data.shape):
             data = data.rechunk(_chunks)
     else:
         assert meta.num_planes == 1
         src_ydim = 0
-        if data.chunksize != meta.chunks:
+        if data.chunks != normalize_chunks(meta.chunks, data.shape):
             data = data.rechunk(meta.chunks)
 
     encoder = _mk_tile_compressor(meta, sample_idx)
